@@ -280,6 +280,7 @@ def run_thread_case(case: dict) -> Outcome:
     size = case["size"] if kind == "tcp" else min(case["size"], 1200)
     ser = StringLineSerializer()
     errors: list[str] = []
+    timeouts: list[str] = []
     sent_ok: list[list[str]] = [[] for _ in range(n)]
     deadline = time.monotonic() + 30
     if kind == "tcp":
@@ -327,6 +328,8 @@ def run_thread_case(case: dict) -> Outcome:
                 text = packet_text(s, i, size)
                 client.send_packet(text, timeout=20)
                 sent_ok[s].append(text)
+        except TimeoutError as exc:
+            timeouts.append(f"sender {s}: {exc}")  # wall-clock budget of the send itself: machine load, not the property
         except Exception as exc:  # noqa: BLE001
             errors.append(f"sender {s}: {type(exc).__name__}: {exc}")
 
@@ -358,6 +361,8 @@ def run_thread_case(case: dict) -> Outcome:
             peer.close()
     if errors:
         raise Violation("send-failed", f"{kind} thread-safe client: {errors[0]}", sut=f"{kind}-threads")
+    if timeouts:
+        raise Inconclusive(f"a send_packet(timeout=20) timed out on the wall clock: {timeouts[0]}")
     if kind == "tcp":
         if len(received) < total:
             raise Inconclusive(f"peer received {len(received)} of {total} bytes within the wall-clock budget")
